@@ -89,6 +89,13 @@ func (h *Hub) checkHasStarted() bool {
 	return h.hasStarted
 }
 
+// check if Shutdown was invoked
+func (h *Hub) checkHasShutdown() bool {
+	h.muxStarted.Lock()
+	defer h.muxStarted.Unlock()
+	return h.hasShutdown
+}
+
 // Sets the SKI as being paired or not
 // Should be used for services which completed the pairing process and
 // which were stored as having the process completed
